@@ -7,7 +7,8 @@
 (*          I R, IFF1 IFF2 IM)                                               *)
 (*   c.m    memory cells written or placed so far (finite function)         *)
 (*   c.dev  what memory answers elsewhere: [mk, seed, val, len]             *)
-(*   c.io   port device: [ik, seed, len];  c.iom cells of a "dumb" device   *)
+(*   c.io   port device: [ik, seed, len];  c.iom cells of a "dumb" device;  *)
+(*          c.nin port reads answered so far by a "hash" device            *)
 (*   c.rd / c.wr / c.pio   bus accesses of the current Step                 *)
 (*   c.halt, c.hc (RETN / RETI handler call counters)                       *)
 (*   c.ovl  mode-0 overlay (only used by Z80Int)                            *)
@@ -27,7 +28,7 @@ EXTENDS Z80Alu, TLC
 
 \* pseudo-random but computable background contents of a "hash" memory
 MemHash(seed, a) == ((a * 197) + ((a \div 256) * 91) + (seed * 57) + ((a \div 3) * 11) + 13) % 256
-\* byte a "hash" port device returns for its k-th read (k = 0,1,..) of a Step
+\* byte a "hash" port device returns for its k-th read (k = 0,1,.. since it was attached: c.nin)
 IoHash(seed, port, k) == ((port * 31) + (k * 101) + (seed * 7) + 5) % 256
 
 Base(dev, a) == IF dev.mk = "hash" THEN MemHash(dev.seed, a) ELSE dev.val
@@ -50,12 +51,12 @@ WrMem(c, a, x) ==
   ELSE [c EXCEPT !.m = IF a < c.dev.len THEN (a :> x) @@ @ ELSE @,
                  !.wr = Append(@, <<a, x>>)]
 
-PortReads(c) == Len(SelectSeq(c.pio, LAMBDA e : e[1] = 0))
+Ins(pio) == Len(SelectSeq(pio, LAMBDA e : e[1] = 0))
 
 PortIn(c, port) ==
   CASE c.io.ik = "nil"  -> [c EXCEPT !.v = 0]
-    [] c.io.ik = "hash" -> LET x == IoHash(c.io.seed, port, PortReads(c))
-                           IN [c EXCEPT !.v = x, !.pio = Append(@, <<0, port, x>>)]
+    [] c.io.ik = "hash" -> LET x == IoHash(c.io.seed, port, c.nin)
+                           IN [c EXCEPT !.v = x, !.pio = Append(@, <<0, port, x>>), !.nin = @ + 1]
     [] c.io.ik = "dumb" -> LET x == IF port < c.io.len /\ port \in DOMAIN c.iom
                                     THEN c.iom[port] ELSE 0
                            IN [c EXCEPT !.v = x, !.pio = Append(@, <<0, port, x>>)]
